@@ -109,6 +109,71 @@ fn exec_c06_entropy(p: &Profile, cfg: &RunCfg) -> (RunOut, MonOut) {
     (out, mon)
 }
 
+fn exec_c08(p: &Profile, cfg: &RunCfg) -> (RunOut, MonOut) {
+    let (out, _w, _s) = run_sm(p, cfg);
+    let mon = c08::monitor(&out);
+    (out, mon)
+}
+fn exec_c09(p: &Profile, cfg: &RunCfg) -> (RunOut, MonOut) {
+    let (out, _w, _s) = run_sm(p, cfg);
+    let mon = c09::monitor(&out);
+    (out, mon)
+}
+
+pub fn c08_profile() -> Profile {
+    let mut p = Profile::base("c08");
+    p.mode = Mode::Either;
+    p.max_checks = 4;
+    p.max_lifetimes = 3;
+    p.crash_permille = 400;
+    p.crash_horizon = 250;
+    p.probes = true;
+    p.net = NetRates {
+        none: 500,
+        transport: 80,
+        timeout: 30,
+        user: 20,
+        drop_response: 30,
+        status: 80,
+        body_garbage: 20,
+        body_bitflip: 0,
+        body_truncate: 0,
+        etag_tamper: 40,
+        replay: 20,
+        forged: 40,
+        byzantine_doc: 80,
+        duplicate: 0,
+        retry_after: 120,
+    };
+    p.bad_url_permille = 20;
+    p.srv.app_outcome = [40, 50, 4, 3, 3];
+    p.installer.plan_fail_permille = 200;
+    p.installer.reboot = [15, 50, 35];
+    p.policy.reboot_allowed_permille = 200;
+    p.next_delays_s = vec![0, 1, 60, 3600];
+    p.wall_init = [6, 1, 1, 2];
+    p
+}
+
+pub fn c09_profile() -> Profile {
+    let mut p = c08_profile();
+    p.name = "c09".into();
+    p.apps_max = 4;
+    p.preset_permille = 350;
+    p.srv.app_list = [40, 20, 20, 20];
+    p.srv.cohort_field = [34, 33, 33];
+    p.srv.daystart = [20, 15, 25, 40];
+    p.wall_init = [1, 0, 0, 0];
+    p
+}
+
+fn c08_batches(tier: &str) -> Vec<Batch> {
+    vec![Batch { name: "c08-main".into(), profile: c08_profile(), runs: scale(tier, 12_000, 300_000), exec: exec_c08, strata: None }]
+}
+fn c09_batches(tier: &str) -> Vec<Batch> {
+    vec![Batch { name: "c09-main".into(), profile: c09_profile(), runs: scale(tier, 12_000, 300_000), exec: exec_c09, strata: None }]
+}
+
 fn adversarial_net() -> NetRates {
     NetRates {
         none: 450,
@@ -257,6 +322,8 @@ pub fn all() -> Vec<PropDef> {
         def("C03", "every request sent in whole-flow CUP runs over service-URL variants (path, query, port, IPv6 literal, trailing ?); a case is one request; distinct = (configured URL, query pair count)", vec!["independent string-level URL split"], c03_batches),
         def("C06", "per-attempt outcome sequences (stratified over the adversary alphabet^3 for the first check) with poll-interval interplay; entropy differential re-runs for jitter; a case is one completed check; distinct = attempt-outcome sequence x initial poll state", vec!["X-Retry-After reading per statement; '+N' either way"], c06_batches),
         def("C07", "header-value classes x status x request kind with probe restarts after every commit and real crashes; a case is one processed response; distinct = (old value, new value, status, request kind)", vec!["'+N' and duplicate headers: any listed reading accepted", "commit is atomic; reads see uncommitted writes"], c07_batches),
+        def("C08", "histories of checks and reboot-wait pings over all outcome classes on a disk with a volatile write cache; probe restart after every commit; real crashes at drawn interactions with rebuild; a case is one check/ping outcome; distinct = (ground-truth outcome, announced result class)", vec!["commit is atomic; reads see uncommitted writes (Storage contract)", "which clock reading inside the check becomes the last-contact time is left open"], c08_batches),
+        def("C09", "responses carrying every subset of cohort fields (absent vs empty) and any daystart for any subset/order of a 1-4 app set plus unknown ids, interleaved with failed checks, pings, crashes and embedder presets; probe restarts at every commit; a case is one successful check or ping; distinct = (apps, named, changed, daystart present)", vec!["server documents carry unique app ids"], c09_batches),
         PropDef {
         id: "C04",
         level: "exploration",
